@@ -23,6 +23,8 @@
 #define _GNU_SOURCE
 #include <pthread.h>
 #include <semaphore.h>
+#include <time.h>
+#include <unistd.h>
 
 static int vp_unlock(pthread_mutex_t *m);
 static int (*vp_real_unlock)(pthread_mutex_t *) = pthread_mutex_unlock;
@@ -39,6 +41,8 @@ static struct ly_ctx *ctx;
 static sem_t go[MAXT], back;
 static __thread int vp_me = -1;
 static __thread int vp_yield_on;
+static volatile int vp_abort;           /* scheduler and workers lost step: let the workers run free and finish */
+static volatile int vp_done[MAXT];
 
 struct call { char kind; int e; };
 struct thr {
@@ -55,8 +59,22 @@ static size_t obslen;
 static void
 vp_yield(void)
 {
+    if (vp_abort) {
+        return;
+    }
     sem_post(&back);
     sem_wait(&go[vp_me]);
+}
+
+/* wait for the running worker to hand the baton back; 0 = it did not within 5 s */
+static int
+vp_wait_back(void)
+{
+    struct timespec ts;
+
+    clock_gettime(CLOCK_REALTIME, &ts);
+    ts.tv_sec += 5;
+    return sem_timedwait(&back, &ts) == 0;
 }
 
 static int
@@ -124,6 +142,7 @@ worker(void *arg)
             vp_yield();
         }
     }
+    vp_done[t->idx] = 1;
     sem_post(&back);
     return NULL;
 }
@@ -199,20 +218,23 @@ op_errsched(struct vp_req *r)
 
     if (ly_ctx_new(NULL, 0, &ctx)) { vp_reply(id, "err Ctx"); return; }
     obslen = 0; obsbuf[0] = 0;
+    vp_abort = 0;
     sem_init(&back, 0, 0);
     for (i = 0; i < n; i++) {
+        vp_done[i] = 0;
         sem_init(&go[i], 0, 0);
         pthread_create(&thr[i].tid, NULL, worker, &thr[i]);
     }
-    for (i = 0; i < ns; i++) {
+    for (i = 0; (i < ns) && !vp_abort; i++) {
         int t = sched[i];
         char kind = thr[t].calls[pos_call[t]].kind;
         int step = pos_step[t];
 
         /* model step `newRecIfNull` of a thread that has a record is a no-op: no locked section is entered */
         if (!((kind == 'L') && (step == 1) && has_rec[t])) {
+            if (vp_done[t]) { vp_abort = 1; break; }        /* the code entered fewer locked sections than the model has steps */
             sem_post(&go[t]);
-            sem_wait(&back);
+            if (!vp_wait_back()) { vp_abort = 1; break; }   /* the worker is blocked (lost unlock?) */
             started[t] = 1;
             if ((kind == 'L') && (step == 1)) has_rec[t] = 1;
         }
@@ -221,11 +243,31 @@ op_errsched(struct vp_req *r)
             pos_call[t]++;
         }
     }
-    for (i = 0; i < n; i++) {
+    for (i = 0; (i < n) && !vp_abort; i++) {
         if (!started[i]) {      /* thread without calls: let it finish */
             sem_post(&go[i]);
-            sem_wait(&back);
+            if (!vp_wait_back()) vp_abort = 1;
         }
+        if (!vp_done[i]) vp_abort = 1;                       /* … or more locked sections than steps */
+    }
+    if (vp_abort) {
+        /* the schedule cannot be replayed step by step on this code: release everybody, report, start afresh */
+        struct timespec ts;
+
+        for (i = 0; i < n; i++) { sem_post(&go[i]); sem_post(&go[i]); sem_post(&go[i]); sem_post(&go[i]); }
+        clock_gettime(CLOCK_REALTIME, &ts);
+        ts.tv_sec += 5;
+        for (i = 0; i < n; i++) {
+            if (pthread_timedjoin_np(thr[i].tid, NULL, &ts)) { vp_reply(id, "err Desync"); _exit(0); }
+        }
+        vp_reply(id, "err Desync");
+        for (i = 0; i < n; i++) sem_destroy(&go[i]);
+        sem_destroy(&back);
+        ly_ctx_destroy(ctx);
+        ctx = NULL;
+        return;
+    }
+    for (i = 0; i < n; i++) {
         pthread_join(thr[i].tid, NULL);
         sem_destroy(&go[i]);
     }
